@@ -604,8 +604,15 @@ def run_encoded(ck, proof_ok=None):
         "None/Primitive/Property/Object/List appenders, soaparray aty, Iter ordering, get_child, "
         "RPC.bodycontent/method/envelope, PartElement (unqualified, optional) at the level of the infoset",
         "rpc/encoded not modelled: arrays whose members are arrays (the code flattens them; excluded by the "
-        "guard), null array members, repeated (maxOccurs>1) accessors, attributes, simple-type restrictions, "
-        "lexical forms of leaves (compared as interned texts against the generator's XSD rendering)"]
+        "guard), null array members, repeated (maxOccurs>1) accessors, simple-type restrictions, "
+        "lexical forms of leaves (compared as interned texts against the generator's XSD rendering)",
+        "rpc/encoded: XML attributes on structs are NOT generated and not modelled: the section-5 schema "
+        "language of coq/C01/Encoded.v (etype = KStruct of members | KArray) has no attribute declarations and "
+        "its ordering/lookup lemmas (EncodedProofs.v) are stated over members only, so carrying them is not a "
+        "cheap extension; schema attributes - including ones named like suds' own markup attributes type / nil / "
+        "arrayType / id / href next to xsi:type and xsi:nil - are covered on the literal styles only "
+        "(distribution: schemas-with-attribute-named-like-markup*), which share Element.set / "
+        "PropertyAppender with the encoded marshaller; soapenc:arrayType itself is set with a prefixed name"]
 
     rng = ck.rng
     quick = ck.tier == "quick"
